@@ -30,4 +30,10 @@ META = {
   "note": "Trusts kit/tok (independent framer), the canonical flag/attribute table in kit/gen and the reference UTF-7 length computation; a single-goroutine harness grants or cancels continuation requests before the encoder waits on them.",
   "technique": "property-based testing (rapid) round-trip + independent tokenizer oracle; native go fuzzing via rapid.MakeFuzz (thorough)",
  },
+ "C07": {
+  "text": "Model-based stateful search: generated histories of tracker mutations, session creation/closure and polls, with the emitted updates captured from a real server connection and every sequence-number translation compared with a reference model of per-client views after every step. Sampling of histories (<=~100 steps), not proof.",
+  "design_ref": "DESIGN.md 3/C07",
+  "note": "Trusts the id-list view model (kit-free, in the test) and kit/tok for reading updates off the wire; UpdateWriter can only be obtained through a server connection, so Poll is driven by NOOP / FETCH commands.",
+  "technique": "stateful property-based testing (rapid t.Repeat) against a reference model of client views",
+ },
 }
